@@ -69,7 +69,11 @@ def run(ids, on_repo):
             try:
                 sh(["rsync", "-a", "--exclude", "__pycache__", "/repo/sktime", scratch + "/"])
                 r = sh(["patch", "-p1", "-d", scratch, "-i", patch])
-                assert r.returncode == 0, r.stdout + r.stderr
+                if r.returncode != 0:
+                    # a later fix: commit rewrote the lines the change touches: regenerate the patch
+                    print(sid, prop, "PATCH-DOES-NOT-APPLY", (r.stdout + r.stderr)[-200:].replace("\n", " "))
+                    res.append((sid, prop, "PATCH-DOES-NOT-APPLY", ""))
+                    continue
                 env["VERIF_REPO"] = scratch
                 p = sh([os.path.join(ROOT, "check"), prop, "--tier", "quick"], env=env)
             finally:
